@@ -1358,7 +1358,8 @@ impl<'a> G<'a> {
             .into_iter()
             .filter(|sid| below_cut(*sid))
             .collect();
-        let unused_peer_id: u32 = if client { 2 + 2 * self.rng.below(50) as u32 } else { self.next_peer_sid + 2 * self.rng.below(3) as u32 };
+        // (for a client: an even id the scripted peer has not promised)
+        let unused_peer_id: u32 = if client { self.next_push_id + 2 * self.rng.below(50) as u32 } else { self.next_peer_sid + 2 * self.rng.below(3) as u32 };
         let some_sid = *open_both.first().unwrap_or(&0);
         let mut cands: Vec<(&'static str, u32, Vec<u8>)> = vec![
             ("conn", 0, wire(0, 0, 0, b"abc")),                              // DATA on stream 0
@@ -1470,7 +1471,7 @@ impl<'a> G<'a> {
         if client && some_sid != 0 {
             // more pushed responses than the client's max_concurrent_streams allows at once: the surplus is refused,
             // the connection survives (F31: it used to panic)
-            let p1 = 2 + 2 * (self.rng.below(30) as u32 + 100);
+            let p1 = self.next_push_id + 2 * (self.rng.below(30) as u32 + 100);
             let mut b = vec![];
             for k in 0..3u32 {
                 b.extend(wire(5, 4, some_sid, &[&(p1 + 2 * k).to_be_bytes()[..], &[0x82, 0x86, 0x84, 0x41, 0x01, b'a']].concat()));
@@ -1567,7 +1568,7 @@ impl<'a> G<'a> {
             if client {
                 cands.push((race, *sid, wire(1, 5, *sid, &[0x88])));
                 // a push promised before the peer saw our reset, and the pushed response after it (F20)
-                let promised = 2 + 2 * (self.rng.below(40) as u32 + 50);
+                let promised = self.next_push_id + 2 * (self.rng.below(40) as u32 + 50);
                 let mut b = wire(5, 4, *sid, &[&promised.to_be_bytes()[..], &[0x82, 0x86, 0x84, 0x41, 0x01, b'a']].concat());
                 b.extend(wire(1, 5, promised, &[0x88]));
                 if self.reset_default && reset_by_us.len() <= 10 {
